@@ -7,15 +7,16 @@ PROP = "C09"
 LEVEL = "proof"
 THEOREMS = {"Properties.C09": ["C09_nullable_sub_from_source", "C09_remove_useless_lang", "C09_remove_useless_shape", "C09_remove_epsilon_lang",
                              "C09_remove_epsilon_shape", "C09_eliminate_unit_lang", "C09_eliminate_unit_shape", "C09_decompose_lang",
-                             "C09_to_normal_form_lang", "C09_to_normal_form_shape"]}
+                             "C09_to_normal_form_lang", "C09_to_normal_form_shape", "C09_to_normal_form_total"]}
 LEVEL_TEXT = ("Proof + correspondence: for the mirrored Gallina models of remove_useless_symbols, remove_epsilon, eliminate_unit_productions and "
               "to_normal_form (fast path, five-stage clean-up, terminal lifting, binarisation with the shared-suffix cache) Coq theorems show, for every "
               "grammar and every word, that the language is kept (the empty word excepted for remove_epsilon and to_normal_form) and that the result has "
-              "the promised shape (every production symbol generating and reachable; no empty body; no unit production; is_normal_form). The nullable "
+              "the promised shape (every production symbol generating and reachable; no empty body; no unit production; is_normal_form), and that the "
+              "to_normal_form recursion always finishes after one clean-up. The nullable "
               "expansion is regenerated from utils_cfg.py on every build. The productions returned by pyformlang are compared with the model's as sets on "
               "every generated grammar, plus bounded language agreement with the certified membership oracle and shape checkers on pyformlang's output.")
 LEVEL_NOTE = ("Trusted: Coq kernel; hand-written model validated by correspondence (the proofs are about the model); pygen translator for nullable_sub; "
-              "Python harness. Not proved: termination of the to_normal_form recursion after one clean-up (checked per case).")
+              "Python harness.")
 RULE = ("random grammars (profiles plain/eps/unit/unitcycle/recursive/useless/longshared/nostartprod/cnf) x {remove_useless_symbols, remove_epsilon, "
         "eliminate_unit_productions, to_normal_form}; language agreement on all words up to length 4|5; non-trivial = at least 2 productions and a body of length >= 2")
 EXPLANATION = "Mirrored stage models + shape checkers + bounded language agreement by the certified membership oracle."
